@@ -223,12 +223,13 @@ PLANS["C04"] = Plan(
 
 PLANS["C09"] = Plan(
     "C09", "other",
-    functions=[QO + ":_evaluate"],
+    functions=[QO + ":_evaluate", "moptipyapps.qap.instance:Instance.__init__#dtype"],
     bounded=[bounded.qap.harness],
     extra=[contracts.qap.prove_c09_bounds, leancheck.lean_prover(["A4.lean"], "C09")],
     explanation="proved: _evaluate == sum_{i,j} flows[i,j] * distances[x[i],x[j]] (recursive spec qsum/qrow) for every pair of "
                 "non-negative matrices, every index vector in range and every storage dtype up to int64/uint32, all "
-                "intermediate values within int64; trivial_bounds (whole-array numpy code, read from /repo) has exactly the "
+                "intermediate values within int64; the storage type chosen by Instance.__init__ holds every entry of both "
+                "matrices whatever the bounds are (block contract; defect F12 repaired); trivial_bounds (whole-array numpy code, read from /repo) has exactly the "
                 "operation tree lower = sum(sort(flows) * reverse(sort(distances))), upper = sum(sort(flows) * "
                 "sort(distances)) in uint64 buffers; that these sums bound the objective of every assignment is the "
                 "rearrangement inequality A4 (lean/A4.lean, re-checked by Lean 4 + Mathlib in the thorough tier). "
